@@ -33,6 +33,11 @@ pub fn opt_model(m: &FormatModel, punct: u8) -> OptModel {
             o.exponent = b'~';
         }
     }
+    if punct == 2 {
+        o.nan = Some(crate::c12::ALT_NAN.to_vec());
+        o.inf = Some(crate::c12::ALT_INF.to_vec());
+        o.infinity = Some(crate::c12::ALT_INFINITY.to_vec());
+    }
     o
 }
 
@@ -194,6 +199,10 @@ pub fn jobs() -> Vec<Job> {
                     if fi == 1 {
                         v.push(Job { entry: i, ty: Ty::Float(fi), punct: 1 });
                     }
+                    // alternative special strings where specials are parsed as such (letters are not digits)
+                    if m.mantissa_radix() <= 10 && !m.no_special && (g == "core" || g == "sep" || e.name.contains("special") || e.name.contains("SPECIAL")) {
+                        v.push(Job { entry: i, ty: Ty::Float(fi), punct: 2 });
+                    }
                 }
             }
             for ii in 0..12 {
@@ -276,13 +285,54 @@ fn suffix_strategy(m: &FormatModel, ty: Ty, o: &OptModel) -> BoxedStrategy<Vec<u
         .boxed()
 }
 
+/// special strings of the job's options with case flips, separators inserted and a tail
+fn special_strategy(m: &FormatModel, o: &OptModel) -> BoxedStrategy<Vec<u8>> {
+    let names: Vec<Vec<u8>> = [o.nan.clone(), o.inf.clone(), o.infinity.clone()].into_iter().flatten().collect();
+    let sep = if m.digit_separator != 0 { m.digit_separator } else { b'_' };
+    let n = names.len().max(1);
+    (
+        0..n,
+        any::<u64>(),
+        proptest::collection::vec(any::<u16>(), 0..7),
+        prop_oneof![3 => Just(0u8), 2 => Just(1u8), 1 => Just(2u8)],
+        prop_oneof![4 => Just(vec![]), 1 => any::<u8>().prop_map(|b| vec![b]), 1 => Just(vec![b'1']), 1 => Just(vec![b'y']), 1 => Just(b"ty".to_vec()), 1 => Just(vec![b'.']), 1 => Just(vec![b' '])],
+        any::<bool>(),
+    )
+        .prop_map(move |(i, flips, seps, sign, tail, sep_tail)| {
+            let mut t: Vec<u8> = names.get(i).cloned().unwrap_or_else(|| b"nan".to_vec());
+            for (k, b) in t.iter_mut().enumerate() {
+                if flips >> (k % 64) & 1 == 1 {
+                    *b ^= 0x20;
+                }
+            }
+            for p in seps {
+                let at = gen::pick(p, t.len() + 1);
+                t.insert(at, sep);
+            }
+            let mut out = match sign {
+                1 => vec![b'-'],
+                2 => vec![b'+'],
+                _ => vec![],
+            };
+            out.extend(t);
+            if sep_tail {
+                out.push(sep);
+            }
+            out.extend(tail);
+            out
+        })
+        .boxed()
+}
+
 pub fn run(ctx: &Ctx, rep: &mut Report) {
     rep.rule = "cases: for every valid compiled format (core, syntax, prebuilt, write and separator groups) x {f32, f64 (standard and \
         custom decimal point / exponent character), integers (all 12 types for STANDARD/R16/R3, four types elsewhere)}: (i) all \
         strings of length <= L (quick 4, thorough 5) over the per-format alphabet (signs, digits, point, exponent in both cases, \
         prefix/suffix letters, separator, special-string letters, space, 0x80); (ii) generated numbers followed by a suffix \
         (nothing, junk byte, separator, sign, exponent, point, suffix letter, another number, special string), optionally \
-        preceded by a prefix and mutated at one position. Oracle (pure relations, no model): (a) complete(s)=Ok(v) iff \
+        preceded by a prefix and mutated at one position; (iii) the configured special strings (default NaN/inf/infinity and an \
+        alternative set whose NaN string is longer than the long infinity string) with case flips, 0-6 inserted separators, sign \
+        and a tail. Oracle (pure relations, no model): (a) complete(s)=Ok(v) iff \
         partial(s)=Ok((v,len(s))); (b) partial(s)=Ok((v,n)) with n>0 => complete(s[..n])=Ok(v); NaN == NaN. non-trivial = the partial \
         parser stopped strictly inside the input, or the input ends in a structural byte; distinct = distinct (format, type, options, text)."
         .into();
@@ -318,6 +368,25 @@ pub fn run(ctx: &Ctx, rep: &mut Report) {
         |j| {
             let m = &cat().models[j.entry];
             suffix_strategy(m, j.ty, &opt_model(m, j.punct))
+        },
+        |j, t| {
+            let mut v = case_json(j.entry, j.ty, t);
+            v["punct"] = json!(j.punct);
+            v
+        },
+        |j, t, l| check_input(j, t, l),
+    );
+    // (iii) special strings (default and alternative option strings) with separators and tails
+    let fj: Vec<Job> = js.iter().filter(|j| matches!(j.ty, Ty::Float(_)) && j.punct != 1 && !cat().models[j.entry].no_special && cat().models[j.entry].mantissa_radix() <= 10).cloned().collect();
+    run_prop_jobs(
+        rep,
+        ctx,
+        "generated:special-strings",
+        &fj,
+        ctx.n(1500, 100_000),
+        |j| {
+            let m = &cat().models[j.entry];
+            special_strategy(m, &opt_model(m, j.punct))
         },
         |j, t| {
             let mut v = case_json(j.entry, j.ty, t);
